@@ -111,24 +111,34 @@ where
             // initial fill-up
             self.reservoir.push(obj)
         } else if self.i < t {
-            // normal reservoir sampling
-            let j: usize = self.rng.gen_range(0..self.i);
+            // normal reservoir sampling: the (i+1)-th item replaces a slot with probability k/(i+1)
+            if self.i + 1 == t {
+                // last item of this phase => calculate the first skip
+                self.skip_until = t + self.draw_gap(t);
+            }
+            let j: usize = self.rng.gen_range(0..=self.i);
             if j < self.k {
                 self.reservoir[j] = obj;
             }
         } else if self.i >= self.skip_until {
             // fast skipping approximation
-            let j: usize = self.rng.gen_range(0..self.k);
-            self.reservoir[j] = obj;
 
             // calculate next skip
-            let p = (self.k as f64) / ((self.i + 1) as f64);
-            let u = 1f64 - self.rng.gen_range((0.)..1.); // (0.0, 1.0]
-            let g = (u.ln() / (1. - p).ln()).floor() as usize;
-            self.skip_until = self.i + g;
+            self.skip_until = self.i + 1 + self.draw_gap(self.i + 1);
+
+            let j: usize = self.rng.gen_range(0..self.k);
+            self.reservoir[j] = obj;
         }
 
         self.i += 1;
+    }
+
+    /// Number of items to skip before the next one is accepted, after `seen` items were
+    /// processed (geometric approximation with the acceptance probability of the next item).
+    fn draw_gap(&mut self, seen: usize) -> usize {
+        let p = (self.k as f64) / ((seen + 1) as f64);
+        let u = 1f64 - self.rng.gen_range((0.)..1.); // (0.0, 1.0]
+        (u.ln() / (1. - p).ln()).floor() as usize
     }
 
     /// Checks if reservoir is empty (i.e. no data points where observed)
